@@ -247,6 +247,9 @@ class Puppet:
             if (level - amt if op['op'] == 'dec' else level + amt) > 3:
                 return None     # (generated programs) the model bounds the level that a change may produce: MaxLevel
             op = dict(op, amt=amt)
+            if w.nt == 2 and 'amtb' in op:
+                lb = w.pools[op['p']].levels.b
+                op['amtb'] = min(op['amtb'], lb) if op['op'] == 'dec' else max(0, min(op['amtb'], 3 - lb))
         return op
 
     async def block(self):
